@@ -309,6 +309,7 @@ EXTRA = {
 # planted changes whose symptom depends on object addresses (id() reuse): the batch observes them, the replay in a fresh
 # interpreter may not reproduce them; the self-test accepts "observed, not promoted" for these only
 ADDRESS_DEPENDENT = {"c10_liftover_memo_keyed_by_id"}
+EXPECTED_MISS = {}  # filled from seeded/<id>/meta.json "expected_miss"
 RUNS = {"c10_single_interval_sequence_memo_ignores_strand": 2500, "c10_gene_iter_children_pops_worklist": 2500}
 
 
@@ -480,7 +481,12 @@ def main(argv):
             meta = json.load(open(meta_p))
             if (not props or meta["property"] in props) and (only is None or only in name):
                 todo.append(("seeded", name, meta["property"], os.path.join(sd, name, "patch.diff")))
+                if meta.get("runs"):
+                    RUNS.setdefault(name, int(meta["runs"]))
+                if meta.get("expected_miss"):
+                    EXPECTED_MISS[name] = meta["expected_miss"]
     missed = []
+    known_miss = []
     for kind, name, prop, payload in todo:
         base = scratch_copy()
         try:
@@ -510,6 +516,10 @@ def main(argv):
             print(f"[mutants] {status:13s} {prop} {name} ({dt:.0f}s) {what if kind == 'planted' else ''}")
             for l in viol[:2]:
                 print("      ", l)
+            if status == "MISSED" and name in EXPECTED_MISS:
+                print(f"       | recorded miss: {EXPECTED_MISS[name]}")
+                known_miss.append(name)
+                continue
             if status not in ("CAUGHT", "OBSERVED"):
                 missed.append(name)
                 print("\n".join("       | " + l for l in out.splitlines()[-8:]))
@@ -518,7 +528,7 @@ def main(argv):
                 print("kept", base)
             else:
                 shutil.rmtree(base, ignore_errors=True)
-    print(f"[mutants] {len(todo) - len(missed)}/{len(todo)} caught; missed: {missed}")
+    print(f"[mutants] {len(todo) - len(missed) - len(known_miss)}/{len(todo)} caught; missed: {missed}; recorded misses (see meta.json / DESIGN.md 9.5): {known_miss}")
     return 1 if missed else 0
 
 
